@@ -19,15 +19,21 @@ def AMap.get (m : AMap) (k : Nat) : Option Nat :=
   | [] => none
   | (k', v) :: rest => if k' = k then some v else AMap.get rest k
 
-/-- `HashMap::remove`.  (The key is looked up first so that removing an absent key does not copy the list;
-this keeps the 32768-allocation exhaustion run of the driver fast.) -/
+/-- `HashMap::remove`: removes every entry with the key (see `insert`).  (The key is looked up first so that
+removing an absent key does not copy the list.) -/
 def AMap.erase (m : AMap) (k : Nat) : AMap :=
   match AMap.get m k with
   | none => m
   | some _ => m.filter (fun p => p.1 != k)
 
-/-- `HashMap::insert`: overwrites. -/
-def AMap.insert (m : AMap) (k v : Nat) : AMap := (k, v) :: AMap.erase m k
+/-- `HashMap::insert` (overwrites): the new entry shadows any older entry with the same key (`get` returns the
+first match, `erase` removes all matches), so the list denotes the same finite map as the Rust `HashMap`. -/
+def AMap.insert (m : AMap) (k v : Nat) : AMap := (k, v) :: m
+
+/-- The entries of the denoted finite map (first occurrence of each key). -/
+def AMap.entries : AMap → AMap
+  | [] => []
+  | (k, v) :: rest => (k, v) :: (AMap.entries rest).filter (fun p => p.1 != k)
 
 /-! ### the bitmap -/
 
@@ -120,6 +126,6 @@ def HMap.lookup (m : HMap) (s : Nat) : LookupRes × HMap :=
 
 /-- `into_handlers`, as a list sorted by stream id (the Rust returns a `HashMap`). -/
 def HMap.intoHandlers (m : HMap) : List (Nat × Nat) :=
-  m.handlers.mergeSort (fun a b => a.1 ≤ b.1)
+  m.handlers.entries.mergeSort (fun a b => a.1 ≤ b.1)
 
 end ScyllaVerif.StreamMap
